@@ -365,12 +365,15 @@ impl DateFilter for ds::MonthdayRange {
                     .is_some_and(|rg| rg.contains(&date));
                 }
 
+                // An offset may carry a start into the following year, and the range it opens may
+                // then last until the turn of the next one ("Dec 31 +6 days-Dec 29+Mo"): the
+                // bounds defined two years before the evaluated date matter too.
                 is_open_from_bounds(
                     date,
-                    (year - 1..=year + 1)
+                    (year - 2..=year + 1)
                         .filter_map(|y| date_on_year(*start, y, valid_ymd_after))
                         .map(|d| start_offset.apply(d)),
-                    (year - 1..=year + 1)
+                    (year - 2..=year + 1)
                         .filter_map(|y| date_on_year(*end, y, valid_ymd_before))
                         .map(|d| end_offset.apply(d)),
                 )
@@ -463,10 +466,10 @@ impl DateFilter for ds::MonthdayRange {
 
                 let next_change = next_change_from_bounds(
                     date,
-                    (year - 1..=year + 1)
+                    (year - 2..=year + 1)
                         .filter_map(|y| date_on_year(*start, y, valid_ymd_after))
                         .map(|d| start_offset.apply(d)),
-                    (year - 1..=year + 1)
+                    (year - 2..=year + 1)
                         .filter_map(|y| date_on_year(*end, y, valid_ymd_before))
                         .map(|d| end_offset.apply(d)),
                 );
